@@ -89,7 +89,7 @@ func Build(d DatumSpec) interface{} {
 	case d.Gen == "bytesdoc":
 		// a small record whose text lives in byte buffers the caller reuses
 		v = map[string]interface{}{
-			"buf":  []byte(r.Pick([]string{"DEBUG all fine.", "ERROR disk full", "WARN  low space ", "status=200 ok  ", "status=404 gone"})),
+			"buf":  []byte(r.Pick([]string{"DEBUG all fine.", "ERROR disk full", "WARN  low space ", "status=200 ok  ", "status=404 gone", "id-\xff\xfe-tail", "0123456789abcdef\xffz", "ERROR \xc3(", "\x80\x80ok"})),
 			"raw":  json.RawMessage(r.Pick([]string{`{"a":1}`, `{"b":2}`, `[1,2,3]`})),
 			"line": []byte(r.Pick(words) + " " + r.Pick(words)),
 			"n":    r.Range(0, 3),
@@ -234,7 +234,7 @@ func genDoc(r *plan.Rand) *Doc {
 		F32:    float32(r.Range(-8, 8)) / 2,
 		U8:     uint8(r.Intn(256)),
 		I64:    int64(r.Range(-5, 5)) * 1000000007,
-		Bytes:  []byte(r.Pick(words)),
+		Bytes:  []byte(r.Pick(append(words[:len(words):len(words)], "web-\xff1", "\xfe\xfeab"))),
 		Arr:    [3]int{r.Intn(5), r.Intn(5), r.Intn(5)},
 		NS:     NamedStr(r.Pick(words)),
 		secret: r.Pick(words),
@@ -784,6 +784,7 @@ var MixedFamilies = map[string]string{
 	"dfilter": `meta.x != "1"`,
 	"ikin":    `"web" in v`,
 	"keyre":   `k == "k1"`,
+	"eqchain": `v == "1" or v == "on"`,
 }
 
 // MixedElem returns the element of class c (T, F or E) for family fam.
@@ -898,6 +899,20 @@ func MixedElem(fam string, c byte, j int) interface{} {
 				return map[string]interface{}{}
 			}
 			return map[string]interface{}{"other": j}
+		}
+	case "eqchain":
+		// several literals compared with one selector: the int equals the first
+		// literal and cannot be compared with the second
+		switch c {
+		case 'T':
+			if j%2 == 0 {
+				return 1
+			}
+			return "on"
+		case 'F':
+			return "zz"
+		default:
+			return 7 + j
 		}
 	case "ikin":
 		// maps keyed by interface{} whose keys mix strings with values no string
